@@ -8,6 +8,72 @@ From RecordUpdate Require Import RecordSet.
 Import RecordSetNotations.
 Open Scope N_scope.
 
+(* the four component types are implicit in the engine functions, locally to this file *)
+#[local] Arguments init {enc dec} _ {ores ires} _ _.
+#[local] Arguments release {enc dec ores ires} _ _ _ _.
+#[local] Arguments disconnect_completion {enc dec ores ires} _ _.
+#[local] Arguments fail_op {enc dec ores ires} _ _ _ _.
+#[local] Arguments ping_extension {enc dec ores ires} _ _.
+#[local] Arguments succeed_op {enc dec ores ires} _ _ _ _.
+#[local] Arguments fail_all {enc dec ores ires} _ _ _ _.
+#[local] Arguments succeed_all {enc dec ores ires} _ _ _.
+#[local] Arguments andthen {enc dec ores ires} _ _.
+#[local] Arguments try_ {enc dec ores ires} _ _.
+#[local] Arguments pure {enc dec ores ires} _.
+#[local] Arguments create_operation {enc dec ores ires} _ _.
+#[local] Arguments passes_now {enc dec ores ires} _ _ _.
+#[local] Arguments user_event {enc dec ores ires} _ _ _ _.
+#[local] Arguments create_connect {enc dec ores ires} _ _.
+#[local] Arguments net_opened {enc dec} _ {ores ires} _ _ _.
+#[local] Arguments op_exists {enc dec ores ires} _ _.
+#[local] Arguments op_passes {enc dec ores ires} _ _ _.
+#[local] Arguments partition_policy {enc dec ores ires} _ _ _.
+#[local] Arguments closed_current {enc dec ores ires} _ _.
+#[local] Arguments slow_start_init {enc dec ores ires} _ _.
+#[local] Arguments update_retries {enc dec ores ires} _ _.
+#[local] Arguments fail_exceeding {enc dec ores ires} _ _.
+#[local] Arguments has_pubrel {enc dec ores ires} _ _.
+#[local] Arguments net_closed_raw {enc dec ores ires} _ _.
+#[local] Arguments net_closed {enc dec ores ires} _ _.
+#[local] Arguments net_write_completion {enc dec ores ires} _ _.
+#[local] Arguments acquire_free_pid {enc dec ores ires} _ _.
+#[local] Arguments acquire_pid_for {enc dec ores ires} _ _.
+#[local] Arguments unbind {enc dec ores ires} _ _.
+#[local] Arguments passes_receive_max {enc dec ores ires} _ _.
+#[local] Arguments throttled {enc dec ores ires} _ _.
+#[local] Arguments has_pending_ack {enc dec ores ires} _.
+#[local] Arguments dequeue {enc dec ores ires} _ _ _.
+#[local] Arguments fully_written {enc dec ores ires} _ _.
+#[local] Arguments service_keep_alive {enc dec ores ires} _ _ _.
+#[local] Arguments process_ack_timeouts {enc dec ores ires} _ _ _.
+#[local] Arguments halt_on_error {enc dec ores ires} _ _.
+#[local] Arguments next_service_time {enc dec ores ires} _ _ _.
+#[local] Arguments build_settings {enc dec ores ires} _ _ _.
+#[local] Arguments apply_session {enc dec ores ires} _ _ _.
+#[local] Arguments hres_of {enc dec ores ires} _ _.
+#[local] Arguments pre_connack {enc dec ores ires} _.
+#[local] Arguments sum_ss {enc dec ores ires} _.
+#[local] Arguments handle_pingresp {enc dec ores ires} _.
+#[local] Arguments handle_suback {enc dec ores ires} _ _ _.
+#[local] Arguments handle_unsuback {enc dec ores ires} _ _ _.
+#[local] Arguments publish_qos_of {enc dec ores ires} _ _.
+#[local] Arguments handle_puback {enc dec ores ires} _ _ _.
+#[local] Arguments handle_pubrec {enc dec ores ires} _ _ _.
+#[local] Arguments handle_pubrel {enc dec ores ires} _ _.
+#[local] Arguments handle_pubcomp {enc dec ores ires} _ _ _.
+#[local] Arguments handle_publish {enc dec ores ires} _ _.
+#[local] Arguments handle_disconnect {enc dec ores ires} _ _ _.
+#[local] Arguments is_connect_op {enc dec ores ires} _ _.
+#[local] Arguments connect_in_queue {enc dec ores ires} _.
+#[local] Arguments reset {enc dec ores ires} _ _.
+#[local] Arguments out_of_res {enc dec ores ires} _ _.
+#[local] Arguments nst_queue {enc dec ores ires} _ _ _ _.
+#[local] Arguments earliest_tmo {enc dec ores ires} _.
+#[local] Arguments SeatStop {enc dec ores ires} _.
+#[local] Arguments SeatContinue {enc dec ores ires} _ _.
+#[local] Arguments SeatEncode {enc dec ores ires} _.
+
+
 Section Serve.
   Variable enc : Type.
   Variable enc_reset : version -> packet -> resolution -> outcome enc.
@@ -25,31 +91,31 @@ Section Serve.
   Variable v_out : option settings -> connect_opts -> resolution -> packet -> outcome unit.
   Variable v_in : option settings -> packet -> outcome unit.
   Variable cfg : config.
-  Hypothesis HC : comps_ok enc enc_reset enc_call dec dec_feed ores ores_resolve ires ires_resolve v_out v_in.
+  Variable HC : comps_ok enc enc_reset enc_call dec dec_init dec_feed ores ores_reset ores_resolve ires ires_reset ires_resolve v_out v_in.
   Hypothesis Hcfg : ok_cfg cfg.
 
   Notation state := (state enc dec ores ires).
   Notation service_loop := (service_loop enc enc_reset enc_call enc_done dec ores ores_reset ores_resolve ires v_out cfg).
   Notation service_queue := (service_queue enc enc_reset enc_call enc_done dec ores ores_reset ores_resolve ires v_out cfg).
   Notation service := (service enc enc_reset enc_call enc_done dec ores ores_reset ores_resolve ires v_out cfg).
-  Notation lp := (lp cfg).
+  Notation lp := (lp cfg HC).
 
   Ltac splits := repeat match goal with |- _ /\ _ => split end.
   Ltac tuple_eqs H := repeat (apply pair_equal_spec in H; destruct H as [H ?]).
   Ltac core_cbn := unfold tracked, inq; cbn [core_of c_ops c_uq c_rq c_hq c_cur c_alloc c_ppub c_pnon c_pwco c_nid c_npid].
 
   Lemma service_queue_spec (s : state) m now cap fill :
-    WF cfg s -> (s_st s = PendingConnack -> m = false) -> 4 <= cap ->
+    WF cfg s -> cinv HC s -> (s_st s = PendingConnack -> m = false) -> 4 <= cap ->
     lp (s_st s) (service_queue s m now cap fill).
   Proof.
-    intros HW Hm Hcap. unfold Model.service_queue.
+    intros HW HI Hm Hcap. unfold Model.service_queue.
     set (fuel := S (S (length (s_hq s) + length (s_rq s) + length (s_uq s)))).
     assert (L : lp (s_st s) (service_loop (fuel + fuel) s m now cap fill [] [])).
-    { apply (service_loop_spec _ _ _ _ _ _ _ _ _ _ _ _ _ _ HC); auto.
+    { apply (service_loop_spec _ _ _ _ _ _ _ _ _ _ _ _ _ _ _ _ HC); auto.
       unfold mu, qlen, fuel. destruct (s_cur s); lia. }
     set (r := service_loop (fuel + fuel) s m now cap fill [] []) in *.
     destruct (sr_bytes r); [exact L|].
-    destruct L as (L1 & L2 & L3 & L4). unfold WFService3.lp. cbn. splits; auto.
+    destruct L as (L1 & L2 & L3 & L4 & L5). unfold WFService3.lp. cbn. splits; auto.
   Qed.
 
   (* per-state facts when a fresh operation (no slow-start mark) is appended *)
@@ -94,13 +160,13 @@ Section Serve.
     match service_keep_alive cfg s now with
     | Panic _ => False
     | Err _ => True
-    | Ok s1 => WF cfg s1 /\ s_st s1 = Connected
+    | Ok s1 => WF cfg s1 /\ s_st s1 = Connected /\ comp_of s1 = comp_of s
     end.
   Proof.
     intros [HW HP] Hst Hnow. unfold service_keep_alive.
-    destruct (s_ping_to s) as [pt|]; [destruct (pt <=? now); [exact I|split; [split|]; assumption]|].
-    destruct (s_next_ping s) as [np|]; [|split; [split|]; assumption].
-    destruct (np <=? now); [|split; [split|]; assumption].
+    destruct (s_ping_to s) as [pt|]; [destruct (pt <=? now); [exact I|split; [split|split]; auto]|].
+    destruct (s_next_ping s) as [np|]; [|split; [split|split]; auto].
+    destruct (np <=? now); [|split; [split|split]; auto].
     set (o := new_op Pingreq false None).
     destruct (create_op_spec [] s o HW eq_refl eq_refl) as (C1 & C2 & C3 & C4 & C5 & C6 & C7 & C8 & C9 & C10).
     cbn [create_operation fst snd] in *. cbv zeta.
@@ -116,9 +182,9 @@ Section Serve.
               s_hq sF = s_next_id s :: s_hq s -> s_uq sF = s_uq s -> s_rq sF = s_rq s -> s_cur sF = s_cur s ->
               s_alloc sF = s_alloc s -> s_ppub sF = s_ppub s -> s_pnon sF = s_pnon s -> s_pwco sF = s_pwco s ->
               s_next_pid sF = s_next_pid s -> s_st sF = s_st s -> s_tmo sF = s_tmo s -> s_connack_to sF = s_connack_to s ->
-              s_settings sF = s_settings s -> s_ss_count sF = s_ss_count s -> s_enc sF = s_enc s ->
-              WF cfg sF /\ s_st sF = Connected).
-    { intros sF F1 F2 F3 F4 F5 F6 F7 F8 F9 F10 F11 F12 F13 F14 F15 F16 F17. split; [split|congruence].
+              s_settings sF = s_settings s -> s_ss_count sF = s_ss_count s -> s_enc sF = s_enc s -> comp_of sF = comp_of s ->
+              WF cfg sF /\ s_st sF = Connected /\ comp_of sF = comp_of s).
+    { intros sF F1 F2 F3 F4 F5 F6 F7 F8 F9 F10 F11 F12 F13 F14 F15 F16 F17 F18. split; [split|split; [congruence|exact F18]].
       - eapply WFS_queues; [exact C2| | | | | | | | | | |]; cbn; try congruence; auto.
         + core_cbn. cbn. rewrite F4, F5, F6, F8, F9. tauto.
         + core_cbn. cbn. rewrite F3, F4, F5, F6, F10. intros i. cbn. intros [H|[H|[[H|H]|[H|H]]]]; try tauto.
@@ -148,7 +214,7 @@ Section Serve.
   Lemma process_ack_timeouts_spec (s : state) now :
     WF cfg s -> s_st s = Connected \/ s_st s = PendingDisconnect ->
     let t := process_ack_timeouts cfg s now in
-    (forall site, r_out t <> Panic site) /\ WF cfg (r_s t).
+    (forall site, r_out t <> Panic site) /\ WF cfg (r_s t) /\ comp_of (r_s t) = comp_of s.
   Proof.
     intros [HW HP] Hst. unfold process_ack_timeouts.
     set (s1 := s <| s_tmo := filter (fun '(_, t) => negb (t <=? now)) (s_tmo s) |>).
@@ -158,28 +224,30 @@ Section Serve.
     assert (H91 : W9 cfg s1).
     { intros E. unfold WFP in HP1. rewrite E in HP1. tauto. }
     match goal with |- context [fail_all cfg s1 ?l ?e] => pose proof (fail_all_spec cfg [] l s1 e HW1 H91) as F end.
-    cbv zeta. split; [apply F|]. split; [apply F|].
+    cbv zeta. split; [apply F|]. split; [|rewrite (rest_comp _ _ (fc_rest _ _ _ (fs_frame _ _ _ _ _ F))); reflexivity].
+    split; [apply F|].
     eapply WFP_after_fail; [exact HP1| |apply F|apply F]. change (s_st s1) with (s_st s). tauto.
   Qed.
 
   Definition svc_post (r : sres enc dec ores ires) : Prop :=
-    (forall site, sr_out r <> Panic site) /\ WF cfg (sr_s r) /\ (forall k, sr_out r = Err k -> s_st (sr_s r) = Halted).
+    (forall site, sr_out r <> Panic site) /\ WF cfg (sr_s r) /\ (forall k, sr_out r = Err k -> s_st (sr_s r) = Halted) /\
+    cinv HC (sr_s r).
 
   Lemma service_wrap (r0 : sres enc dec ores ires) :
-    (forall site, sr_out r0 <> Panic site) /\ WFS (sr_s r0) /\ (sr_out r0 = Ok tt -> WFP cfg (sr_s r0)) ->
+    (forall site, sr_out r0 <> Panic site) /\ WFS (sr_s r0) /\ (sr_out r0 = Ok tt -> WFP cfg (sr_s r0)) /\ cinv HC (sr_s r0) ->
     svc_post (mkSres (halt_on_error (sr_s r0) (sr_out r0)) (sr_bytes r0) (sr_done r0) (sr_out r0)).
   Proof.
-    intros (N0 & W0 & P0). unfold svc_post. cbn [sr_s sr_out sr_bytes sr_done]. split; [exact N0|].
+    intros (N0 & W0 & P0 & I0). unfold svc_post. cbn [sr_s sr_out sr_bytes sr_done]. split; [exact N0|].
     destruct (sr_out r0) as [[]|k|site] eqn:Eo; cbn [halt_on_error].
-    - split; [split; [exact W0|apply P0; reflexivity]|]. intros k Hk. discriminate.
-    - split; [split; [exact W0|exact I]|]. intros; reflexivity.
+    - split; [split; [exact W0|apply P0; reflexivity]|]. split; [intros k Hk; discriminate|exact I0].
+    - split; [split; [exact W0|exact I]|]. split; [intros; reflexivity|exact I0].
     - exfalso. eapply N0. reflexivity.
   Qed.
 
   Theorem service_spec (s : state) now cap fill :
-    WF cfg s -> now <= TMAX -> 4 <= cap -> svc_post (service s now cap fill).
+    WF cfg s -> cinv HC s -> now <= TMAX -> 4 <= cap -> svc_post (service s now cap fill).
   Proof.
-    intros HWF Hnow Hcap. pose proof HWF as [HW HP]. unfold Model.service. cbv zeta.
+    intros HWF HI Hnow Hcap. pose proof HWF as [HW HP]. unfold Model.service. cbv zeta.
     match goal with |- svc_post (mkSres (halt_on_error (sr_s ?M) _) _ _ _) => apply (service_wrap M) end.
     destruct (s_st s) eqn:Est.
     - cbn. splits; auto. intros; discriminate.
@@ -188,23 +256,24 @@ Section Serve.
       destruct (s_connack_to s) as [t|]; [|congruence].
       destruct (t <=? now).
       + cbn. splits; auto; intros; discriminate.
-      + pose proof (service_queue_spec s false now cap fill HWF (fun _ => eq_refl) Hcap) as (L1 & L2 & L3 & _). auto.
+      + pose proof (service_queue_spec s false now cap fill HWF HI (fun _ => eq_refl) Hcap) as (L1 & L2 & L3 & _ & L5). auto.
     - (* Connected *)
       pose proof (service_keep_alive_spec s now HWF Est Hnow) as Hka.
       destruct (service_keep_alive cfg s now) as [s1|k|site]; [|cbn; splits; auto; intros; discriminate|destruct Hka].
-      destruct Hka as (HWF1 & Hst1).
-      pose proof (service_queue_spec s1 true now cap fill HWF1 (fun E => ltac:(congruence)) Hcap) as (L1 & L2 & L3 & L4).
+      destruct Hka as (HWF1 & Hst1 & Hc1).
+      assert (HI1 : cinv HC s1) by (eapply cinv_comp; [exact Hc1|exact HI]).
+      pose proof (service_queue_spec s1 true now cap fill HWF1 HI1 (fun E => ltac:(congruence)) Hcap) as (L1 & L2 & L3 & L4 & L5).
       set (q := service_queue s1 true now cap fill) in *.
       destruct (sr_out q) as [[]|k|site] eqn:Eq.
       + assert (HWFq : WF cfg (sr_s q)) by (split; [exact L2|apply L3; reflexivity]).
         assert (Hstq : s_st (sr_s q) = Connected \/ s_st (sr_s q) = PendingDisconnect) by (rewrite Hst1 in L4; exact L4).
-        destruct (process_ack_timeouts_spec (sr_s q) now HWFq Hstq) as (T1 & [T2 T3]).
-        cbn [sr_s sr_out]. splits; auto.
+        destruct (process_ack_timeouts_spec (sr_s q) now HWFq Hstq) as (T1 & [T2 T3] & T4).
+        cbn [sr_s sr_out]. splits; auto. eapply cinv_comp; [exact T4|exact L5].
       + splits; auto; rewrite Eq; intros; discriminate.
       + exfalso. eapply L1. reflexivity.
     - (* PendingDisconnect *)
-      destruct (process_ack_timeouts_spec s now HWF (or_intror Est)) as (T1 & [T2 T3]).
-      cbn [sr_s sr_out]. splits; auto.
+      destruct (process_ack_timeouts_spec s now HWF (or_intror Est)) as (T1 & [T2 T3] & T4).
+      cbn [sr_s sr_out]. splits; auto. eapply cinv_comp; [exact T4|exact HI].
     - cbn. splits; auto; intros; discriminate.
   Qed.
 End Serve.
@@ -212,4 +281,4 @@ End Serve.
 
 Arguments WFP_newop {enc dec ores ires} cfg s s' o _ _ _ _ _ _ _ _ _ _ _ _ _ _ _.
 Arguments WFP_after_fail {enc dec ores ires} cfg ids s0 s' _ _ _ _.
-Arguments svc_post {enc dec ores ires} cfg r.
+Arguments svc_post {enc enc_reset enc_call dec dec_init dec_feed ores ores_reset ores_resolve ires ires_reset ires_resolve v_out v_in} cfg HC r.
